@@ -147,8 +147,14 @@ def _worker(args):
     seen_f: set = set()
     oks: dict[tuple, int] = {}
 
+    unsupported: list[str] = []
+
     def on_trial(rec):
         for f in mod.check_trial(prog, sc, rec):
+            if f.get("status") == "unsupported":
+                # the model lost track of something the rule needs: the scenario ends as an analysis error
+                unsupported.append(f"{f['rule']} {f['construct']}: {f['detail']}")
+                continue
             if f.get("status") == "ok":
                 k = (f["rule"], f["construct"])
                 oks[k] = oks.get(k, 0) + 1
@@ -160,7 +166,7 @@ def _worker(args):
 
     try:
         stats = sc.run_paths(on_trial, limit=limit)
-        err = ""
+        err = unsupported[0] if unsupported else ""
     except AnalysisError as exc:
         stats = {"paths": 0, "trials": 0, "pruned": 0}
         err = str(exc)
